@@ -171,3 +171,447 @@ Proof.
     + rewrite Hc, Hr. exact I3.
     + exact I5'.
 Qed.
+
+(* ---- small helpers ---- *)
+Lemma CacheInv_users s us : CacheInv s -> CacheInv (with_users s us).
+Proof. intros [A B C]. split; assumption. Qed.
+
+Lemma with_users_self s : with_users s (s_users s) = s.
+Proof. destruct s; reflexivity. Qed.
+
+Lemma R_other s s' h j :
+  (forall u, nget j (s_users s) = Some u -> nget j (s_users s') = Some u) -> R s h j -> R s' h j.
+Proof. intros H [u [Hu Hr]]. exists u. split; [apply H; exact Hu|exact Hr]. Qed.
+
+Definition ids_bounded (s : st) : Prop :=
+  forall j u, nget j (s_users s) = Some u -> (j <= s_next s)%N.
+
+(* ---- lookups ---- *)
+Lemma recognised_In t now s h id :
+  In id (recognised_by t now s h) -> NoDup (map fst (s_users s)) ->
+  exists u, nget id (s_users s) = Some u /\ recog t now u h = true.
+Proof.
+  unfold recognised_by. intros Hin Hnd. apply in_map_iff in Hin as [[i u] [Hi Hin]]. cbn in Hi. subst i.
+  apply filter_In in Hin as [Hin Hr]. cbn [snd] in Hr. exists u. split; [apply In_nget; assumption|exact Hr].
+Qed.
+
+Lemma lookup_preserves now s h :
+  Inv s -> ids_bounded s -> (length (recognised_by 0 now s h) <= 1)%nat ->
+  Inv (fst (getUserId 0 now s h)) /\ ids_bounded (fst (getUserId 0 now s h)).
+Proof.
+  intros [Hnd [I2 I3 I5] Hcoh] Hb Hlen. unfold getUserId.
+  destruct (dict_get h (s_hcache s)) as [id0|] eqn:Emiss; [split; [split; [|split|]|]; assumption|].
+  pose proof (scan_users_t0 now h (s_users s)) as Hus.
+  pose proof (scan_users_ids 0 now h (s_users s)) as Hids.
+  destruct (scan_users 0 now h (s_users s)) as [us ids]. cbn [fst snd] in Hus, Hids. subst us.
+  fold (recognised_by 0 now s h) in Hids.
+  destruct ids as [|[id x] [|e r]].
+  - cbn [fst]. rewrite with_users_self. split; [split; [|split|]|]; assumption.
+  - cbn [fst]. cbn [map fst] in Hids.
+    assert (HR : R s h id).
+    { assert (Hin : In id (recognised_by 0 now s h)) by (rewrite <- Hids; left; reflexivity).
+      destruct (recognised_In _ _ _ _ _ Hin Hnd) as [u [Hu Hr]]. exists u. split; [exact Hu|]. rewrite <- (recog_t0 now). exact Hr. }
+    split; [|exact Hb].
+    split; cbn [s_users s_hcache s_hrev s_ncache s_nrev]; [exact Hnd| |].
+    + split; cbn [s_users s_hcache s_hrev s_ncache s_nrev]; [| |exact I5].
+      * intros h2 j Hg. rewrite dict_get_snoc in Hg.
+        destruct (dict_get h2 (s_hcache s)) as [j0|] eqn:Eold.
+        -- inversion Hg; subst j0. destruct (I2 _ _ Eold) as [l [Hl Hin]].
+           destruct (N.eq_dec j id) as [E|E].
+           ++ subst j. rewrite Hl. rewrite nget_nset_same. eexists. split; [reflexivity|].
+              destruct (existsb (seq_eqb h) l); [exact Hin|apply in_or_app; left; exact Hin].
+           ++ exists l. split; [|exact Hin].
+              destruct (nget id (s_hrev s)); rewrite nget_nset_other by exact E; exact Hl.
+        -- destruct (seq_eqb h2 h) eqn:Eh; [|discriminate]. inversion Hg; subst j. apply seq_eqb_eq in Eh. subst h2.
+           destruct (nget id (s_hrev s)) as [l|] eqn:El; rewrite nget_nset_same; eexists; split; try reflexivity.
+           ++ destruct (existsb (seq_eqb h) l) eqn:Ex; [|apply in_or_app; right; left; reflexivity].
+              apply existsb_exists in Ex as [y [Hy Hey]]. apply seq_eqb_eq in Hey. subst y. exact Hy.
+           ++ left. reflexivity.
+      * intros j l Hl. destruct (N.eq_dec j id) as [E|E].
+        -- subst j.
+           assert (Hnew : forall l0, (nget id (s_hrev s) = Some l0 \/ (nget id (s_hrev s) = None /\ l0 = [])) ->
+                   l = (if existsb (seq_eqb h) l0 then l0 else l0 ++ [h]) ->
+                   NoDup l /\ forall h2, In h2 l -> dict_get h2 (s_hcache s ++ [(h, id)]) = Some id).
+           { intros l0 Hl0 El. 
+             assert (Hold : NoDup l0 /\ forall h2, In h2 l0 -> dict_get h2 (s_hcache s) = Some id).
+             { destruct Hl0 as [Hl0|[_ Hl0]]; [apply I3; exact Hl0|subst; split; [constructor|intros ? []]]. }
+             destruct Hold as [Hnd0 Hall0].
+             assert (Hni : ~ In h l0) by (intro Hin; rewrite (Hall0 _ Hin) in Emiss; discriminate).
+             assert (Hex : existsb (seq_eqb h) l0 = false).
+             { destruct (existsb (seq_eqb h) l0) eqn:Ex; [|reflexivity].
+               apply existsb_exists in Ex as [y [Hy Hey]]. apply seq_eqb_eq in Hey. subst y. contradiction. }
+             rewrite Hex in El. subst l. split; [apply NoDup_app_snoc; assumption|].
+             intros h2 Hin. rewrite dict_get_snoc. apply in_app_iff in Hin as [Hin|[Hin|[]]].
+             - rewrite (Hall0 _ Hin). reflexivity.
+             - subst h2. rewrite Emiss, seq_eqb_refl. reflexivity. }
+           destruct (nget id (s_hrev s)) as [l0|] eqn:El0; rewrite nget_nset_same in Hl; injection Hl as El.
+           ++ apply (Hnew l0); [left; reflexivity|symmetry; exact El].
+           ++ apply (Hnew []); [right; split; reflexivity|symmetry; exact El].
+        -- assert (Hl' : nget j (s_hrev s) = Some l).
+           { destruct (nget id (s_hrev s)); rewrite nget_nset_other in Hl by exact E; exact Hl. }
+           destruct (I3 _ _ Hl') as [Hnd' Hall']. split; [exact Hnd'|].
+           intros h2 Hin. rewrite dict_get_snoc, (Hall' _ Hin). reflexivity.
+    + intros h2 j Hg. rewrite dict_get_snoc in Hg.
+      destruct (dict_get h2 (s_hcache s)) as [j0|] eqn:Eold.
+      * inversion Hg; subst j0. destruct (Hcoh _ _ Eold) as [u Hu]. exists u. exact Hu.
+      * destruct (seq_eqb h2 h) eqn:Eh; [|discriminate]. inversion Hg; subst j. apply seq_eqb_eq in Eh. subst h2.
+        destruct HR as [u Hu]. exists u. exact Hu.
+  - exfalso. rewrite <- Hids in Hlen. cbn in Hlen. lia.
+Qed.
+
+(* ---- setUser ---- *)
+Lemma name_lookup_facts s0 name :
+  CacheInv s0 ->
+  CacheInv (fst (getUserIdByName s0 name))
+  /\ s_users (fst (getUserIdByName s0 name)) = s_users s0
+  /\ s_hcache (fst (getUserIdByName s0 name)) = s_hcache s0
+  /\ s_hrev (fst (getUserIdByName s0 name)) = s_hrev s0
+  /\ s_next (fst (getUserIdByName s0 name)) = s_next s0.
+Proof.
+  intros HC. pose proof HC as [I2 I3 I5]. unfold getUserIdByName.
+  destruct (dict_get (C03.Model.lower name) (s_ncache s0)) as [i|] eqn:Ec; [cbn [fst]; auto|].
+  destruct (find_name (C03.Model.lower name) (s_users s0)) as [i|]; [|cbn [fst]; auto].
+  cbn [fst s_users s_hcache s_hrev s_next]. split; [|auto].
+  split; cbn [s_hcache s_hrev]; [exact I2|exact I3|].
+  cbn [s_nrev s_ncache]. intros j n Hj.
+  destruct (N.eq_dec j i) as [E|E].
+  - subst j. rewrite nget_nset_same in Hj. inversion Hj; subst n. apply dict_get_set_same.
+  - rewrite nget_nset_other in Hj by exact E. pose proof (I5 _ _ Hj) as Hg.
+    rewrite dict_get_set_other; [exact Hg|]. apply seq_eqb_neq. intro En. subst n. congruence.
+Qed.
+
+Lemma rollback_restores id u users :
+  rollback (uget id users) id (match uget id users with Some _ => uset id u users | None => users end) = users.
+Proof.
+  unfold rollback. rewrite !uget_nget, ?uset_nset.
+  destruct (nget id users) as [u0|] eqn:E; [|reflexivity].
+  rewrite !uset_nset, nset_nset_same. apply nset_noop. exact E.
+Qed.
+
+Lemma Inv_same_users s s' :
+  Inv s -> s_users s' = s_users s -> s_hcache s' = s_hcache s -> CacheInv s' -> Inv s'.
+Proof.
+  intros [Hnd _ Hcoh] Hu Hc HC. split; [rewrite Hu; exact Hnd|exact HC|].
+  intros h j Hg. rewrite Hc in Hg. destruct (Hcoh _ _ Hg) as [x [Hx Hr]]. exists x. rewrite Hu. auto.
+Qed.
+
+Lemma set_preserves now s id u :
+  Inv s -> ids_bounded s ->
+  Inv (fst (setUser 0 now s id u)) /\ ids_bounded (fst (setUser 0 now s id u)).
+Proof.
+  intros HI Hb. pose proof HI as [Hnd HC Hcoh].
+  unfold setUser.
+  set (us0 := match uget id (s_users s) with Some _ => uset id u (s_users s) | None => s_users s end).
+  set (s0 := St us0 (s_hcache s) (s_hrev s) (s_ncache s) (s_nrev s) (N.max (s_next s) id)).
+  assert (HC0 : CacheInv s0) by (destruct HC as [A B C]; split; assumption).
+  destruct (name_lookup_facts s0 (u_name u) HC0) as [HC1 [Hu1 [Hc1 [Hr1 Hn1]]]].
+  destruct (getUserIdByName s0 (u_name u)) as [s1 r]. cbn [fst] in HC1, Hu1, Hc1, Hr1, Hn1.
+  change (s_users s0) with us0 in Hu1. change (s_hcache s0) with (s_hcache s) in Hc1.
+  change (s_hrev s0) with (s_hrev s) in Hr1. change (s_next s0) with (N.max (s_next s) id) in Hn1.
+  assert (Hroll : rollback (uget id (s_users s)) id us0 = s_users s) by apply rollback_restores.
+  assert (Hbound_old : forall s', s_users s' = s_users s -> s_next s' = N.max (s_next s) id -> ids_bounded s').
+  { intros s' Hu' Hn' j x Hj. rewrite Hu' in Hj. rewrite Hn'. specialize (Hb _ _ Hj). lia. }
+  destruct (match r with Ok other => negb (N.eqb other id) | Raise _ => false end).
+  { cbn [fst]. rewrite Hu1, Hroll. split.
+    - apply (Inv_same_users s); [exact HI|reflexivity|exact Hc1|apply CacheInv_users; exact HC1].
+    - apply Hbound_old; [reflexivity|exact Hn1]. }
+  pose proof (overlap_all_t0 now id (u_masks u) (s_users s1)) as Hov.
+  destruct (overlap_all 0 now id (u_masks u) (s_users s1)) as [us1 dup]. cbn [fst] in Hov. subst us1.
+  destruct dup.
+  { cbn [fst]. rewrite Hu1, Hroll. split.
+    - apply (Inv_same_users s); [exact HI|reflexivity|exact Hc1|apply CacheInv_users; apply CacheInv_users; exact HC1].
+    - apply Hbound_old; [reflexivity|exact Hn1]. }
+  rewrite with_users_self.
+  destruct (invalidate_id_ok s1 id HC1) as [s3 [Hinv [Hu3 [Hn3 [Hiff HC3]]]]].
+  rewrite Hinv. cbn [fst].
+  assert (Hfinal : uset id u (s_users s3) = nset id u (s_users s)).
+  { rewrite Hu3, Hu1. unfold us0. rewrite !uget_nget, !uset_nset.
+    destruct (nget id (s_users s)); [apply nset_nset_same|reflexivity]. }
+  rewrite Hfinal. split.
+  - split; cbn [s_users s_hcache].
+    + apply NoDup_nset. exact Hnd.
+    + apply CacheInv_users. exact HC3.
+    + intros h j Hg. apply Hiff in Hg as [Hg Hne]. rewrite Hc1 in Hg.
+      apply (R_other s); [|apply Hcoh; exact Hg].
+      intros x Hx. unfold with_users. cbn [s_users]. rewrite nget_nset_other by exact Hne. exact Hx.
+  - intros j x Hj. unfold with_users in *. cbn [s_users s_next] in *. rewrite Hn3, Hn1.
+    destruct (N.eq_dec j id) as [E|E]; [subst; lia|].
+    rewrite nget_nset_other in Hj by exact E. specialize (Hb _ _ Hj). lia.
+Qed.
+
+(* ---- delUser / newUser / addAuth ---- *)
+Lemma del_preserves s id :
+  Inv s -> ids_bounded s -> Inv (fst (delUser s id)) /\ ids_bounded (fst (delUser s id)).
+Proof.
+  intros HI Hb. pose proof HI as [Hnd HC Hcoh]. unfold delUser.
+  destruct (uget id (s_users s)); [|split; assumption].
+  destruct (invalidate_id_ok (with_users s (udel id (s_users s))) id (CacheInv_users _ _ HC))
+    as [s1 [Hinv [Hu [Hn [Hiff HC1]]]]].
+  rewrite Hinv. cbn [fst]. unfold with_users in Hu, Hn, Hiff. cbn [s_users s_next s_hcache] in Hu, Hn, Hiff.
+  split.
+  - split.
+    + rewrite Hu. rewrite udel_ndel. apply NoDup_ndel. exact Hnd.
+    + exact HC1.
+    + intros h j Hg. apply Hiff in Hg as [Hg Hne].
+      apply (R_other s); [|apply Hcoh; exact Hg].
+      intros x Hx. rewrite Hu, udel_ndel. rewrite nget_ndel_other by exact Hne. exact Hx.
+  - intros j x Hj. rewrite Hu, udel_ndel in Hj. rewrite Hn.
+    destruct (N.eq_dec j id) as [E|E]; [subst; rewrite nget_ndel_same in Hj; discriminate|].
+    rewrite nget_ndel_other in Hj by exact E. exact (Hb _ _ Hj).
+Qed.
+
+Lemma new_preserves s :
+  Inv s -> ids_bounded s -> Inv (fst (newUser s)) /\ ids_bounded (fst (newUser s)).
+Proof.
+  intros [Hnd [I2 I3 I5] Hcoh] Hb. unfold newUser. cbn [fst]. rewrite uset_nset.
+  assert (Hfresh : forall j x, nget j (s_users s) = Some x -> j <> s_next s + 1).
+  { intros j x Hj E. specialize (Hb _ _ Hj). lia. }
+  split.
+  - split; cbn [s_users s_hcache s_hrev s_ncache s_nrev].
+    + apply NoDup_nset. exact Hnd.
+    + split; assumption.
+    + intros h j Hg. destruct (Hcoh _ _ Hg) as [x [Hx Hr]]. exists x. split; [|exact Hr].
+      cbn [s_users]. rewrite nget_nset_other; [exact Hx|]. eapply Hfresh. exact Hx.
+  - intros j x Hj. cbn [s_users s_next] in *.
+    destruct (N.eq_dec j (s_next s + 1)) as [E|E]; [subst; lia|].
+    rewrite nget_nset_other in Hj by exact E. specialize (Hb _ _ Hj). lia.
+Qed.
+
+Lemma addAuth_keeps_recog now u h u' h2 :
+  addAuth now u h = Ok u' -> recog0 u h2 = true -> recog0 u' h2 = true.
+Proof.
+  unfold addAuth. destruct (truthy (first_match (u_masks u) h) || negb (u_secure u)); [|discriminate].
+  intro H. inversion H; subst u'. unfold recog0, mask_match. cbn [u_auth u_masks].
+  rewrite dedupe_masks. rewrite existsb_app. intro Hr.
+  apply orb_true_iff in Hr as [Hr|Hr]; [rewrite Hr; reflexivity|rewrite Hr; apply orb_true_r].
+Qed.
+
+Lemma auth_preserves now s id h :
+  Inv s -> ids_bounded s -> Inv (fst (opAddAuth now s id h)) /\ ids_bounded (fst (opAddAuth now s id h)).
+Proof.
+  intros HI Hb. pose proof HI as [Hnd HC Hcoh]. unfold opAddAuth. rewrite uget_nget.
+  destruct (nget id (s_users s)) as [u|] eqn:Eu; [|split; assumption].
+  destruct (addAuth now u h) as [u'|e] eqn:Ea; [|split; assumption].
+  cbn [fst]. rewrite uset_nset. unfold with_users. split.
+  - split; cbn [s_users s_hcache].
+    + apply NoDup_nset. exact Hnd.
+    + destruct HC as [A B C]. split; assumption.
+    + intros h2 j Hg. destruct (Hcoh _ _ Hg) as [x [Hx Hr]].
+      destruct (N.eq_dec j id) as [E|E].
+      * subst j. rewrite Eu in Hx. inversion Hx; subst x. exists u'. split; [cbn [s_users]; apply nget_nset_same|].
+        eapply addAuth_keeps_recog; eassumption.
+      * exists x. split; [cbn [s_users]; rewrite nget_nset_other by exact E; exact Hx|exact Hr].
+  - intros j x Hj. cbn [s_users s_next] in *.
+    destruct (N.eq_dec j id) as [E|E]; [subst; exact (Hb _ _ Eu)|].
+    rewrite nget_nset_other in Hj by exact E. exact (Hb _ _ Hj).
+Qed.
+
+(* ---- clearAuth ---- *)
+Lemma invalidate_h_ok s h :
+  CacheInv s ->
+  exists s', invalidate_h s h = Ok s'
+    /\ s_users s' = s_users s /\ s_next s' = s_next s
+    /\ (forall h2 j, dict_get h2 (s_hcache s') = Some j -> dict_get h2 (s_hcache s) = Some j)
+    /\ dict_get h (s_hcache s') = None
+    /\ CacheInv s'.
+Proof.
+  intros HC. pose proof HC as [I2 I3 I5]. unfold invalidate_h.
+  destruct (dict_get h (s_hcache s)) as [id|] eqn:Eg.
+  2:{ exists s. split; [reflexivity|]. split; [reflexivity|]. split; [reflexivity|]. split; [auto|]. split; [exact Eg|exact HC]. }
+  destruct (I2 _ _ Eg) as [l [Hl Hin]]. rewrite Hl.
+  assert (Hex : existsb (seq_eqb h) l = true).
+  { apply existsb_exists. exists h. split; [exact Hin|apply seq_eqb_refl]. }
+  rewrite Hex.
+  destruct (I3 _ _ Hl) as [Hnd Hall].
+  set (l' := filter (fun x => negb (seq_eqb h x)) l).
+  set (smid := St (s_users s) (sdel h (s_hcache s))
+                  (match l' with [] => ndel id (s_hrev s) | _ => nset id l' (s_hrev s) end)
+                  (s_ncache s) (s_nrev s) (s_next s)).
+  assert (Hl'in : forall x, In x l' <-> In x l /\ x <> h).
+  { intro x. unfold l'. rewrite filter_In. split; intros [A B]; split; auto.
+    - intro E. subst. rewrite seq_eqb_refl in B. discriminate.
+    - apply negb_true_iff. apply seq_eqb_neq. congruence. }
+  assert (HCmid : CacheInv smid).
+  { unfold smid. split; cbn [s_hcache s_hrev s_ncache s_nrev].
+    - intros h2 j Hg. apply dict_get_sdel_some in Hg as [Hg Hne]. apply seq_eqb_neq in Hne.
+      destruct (I2 _ _ Hg) as [l2 [Hl2 Hin2]].
+      destruct (N.eq_dec j id) as [E|E].
+      + subst j. rewrite Hl in Hl2. inversion Hl2; subst l2.
+        assert (Hin' : In h2 l') by (apply Hl'in; auto).
+        destruct l' as [|y r] eqn:El'; [destruct Hin'|]. rewrite nget_nset_same. eexists. split; [reflexivity|exact Hin'].
+      + exists l2. split; [|exact Hin2].
+        destruct l'; [rewrite nget_ndel_other by exact E|rewrite nget_nset_other by exact E]; exact Hl2.
+    - intros j l2 Hl2. destruct (N.eq_dec j id) as [E|E].
+      + subst j. destruct l' as [|y r] eqn:El'; [rewrite nget_ndel_same in Hl2; discriminate|].
+        rewrite nget_nset_same in Hl2. inversion Hl2; subst l2. split.
+        * rewrite <- El'. unfold l'. apply NoDup_filter. exact Hnd.
+        * intros h2 Hin2. apply Hl'in in Hin2 as [Hin2 Hne].
+          rewrite dict_get_sdel_other; [apply Hall; exact Hin2|]. apply seq_eqb_neq. exact Hne.
+      + assert (Hl2' : nget j (s_hrev s) = Some l2).
+        { destruct l'; [rewrite nget_ndel_other in Hl2 by exact E|rewrite nget_nset_other in Hl2 by exact E]; exact Hl2. }
+        destruct (I3 _ _ Hl2') as [Hnd2 Hall2]. split; [exact Hnd2|].
+        intros h2 Hin2. rewrite dict_get_sdel_other; [apply Hall2; exact Hin2|].
+        apply seq_eqb_neq. intro E2. subst h2. rewrite (Hall2 _ Hin2) in Eg. inversion Eg. congruence.
+    - exact I5. }
+  destruct (invalidate_id_ok smid id HCmid) as [s' [Hinv [Hu [Hn [Hiff HC']]]]].
+  fold l'. fold smid. rewrite Hinv. exists s'. split; [reflexivity|].
+  split; [exact Hu|]. split; [exact Hn|]. split; [|split; [|exact HC']].
+  - intros h2 j Hg. apply Hiff in Hg as [Hg _]. unfold smid in Hg. cbn [s_hcache] in Hg.
+    apply dict_get_sdel_some in Hg as [Hg _]. exact Hg.
+  - destruct (dict_get h (s_hcache s')) as [j|] eqn:E; [|reflexivity].
+    apply Hiff in E as [E _]. unfold smid in E. cbn [s_hcache] in E. rewrite dict_get_sdel_same in E. discriminate.
+Qed.
+
+Lemma invalidate_fold_ok (masks : list (Z * str)) s :
+  CacheInv s ->
+  exists s', fold_left (fun (acc : res st) e => do a <- acc; invalidate_h a (snd e)) masks (Ok s) = Ok s'
+    /\ s_users s' = s_users s /\ s_next s' = s_next s
+    /\ (forall h2 j, dict_get h2 (s_hcache s') = Some j -> dict_get h2 (s_hcache s) = Some j)
+    /\ (forall e, In e masks -> dict_get (snd e) (s_hcache s') = None)
+    /\ CacheInv s'.
+Proof.
+  revert s. induction masks as [|e masks IH]; intros s HC.
+  - exists s. split; [reflexivity|]. split; [reflexivity|]. split; [reflexivity|]. split; [auto|]. split; [intros e []|exact HC].
+  - cbn [fold_left bind]. destruct (invalidate_h_ok s (snd e) HC) as [s1 [H1 [Hu1 [Hn1 [Hsub1 [Hnone1 HC1]]]]]].
+    rewrite H1. destruct (IH s1 HC1) as [s' [H' [Hu' [Hn' [Hsub' [Hnone' HC']]]]]].
+    exists s'. split; [exact H'|]. split; [congruence|]. split; [congruence|].
+    split; [intros h2 j Hg; apply Hsub1; apply Hsub'; exact Hg|]. split; [|exact HC'].
+    intros e2 [E|Hin]; [subst e2|apply Hnone'; exact Hin].
+    destruct (dict_get (snd e) (s_hcache s')) as [j|] eqn:Eg; [|reflexivity].
+    apply Hsub' in Eg. congruence.
+Qed.
+
+Lemma clear_preserves s id :
+  Inv s -> ids_bounded s -> Inv (fst (opClearAuth s id)) /\ ids_bounded (fst (opClearAuth s id)).
+Proof.
+  intros HI Hb. pose proof HI as [Hnd HC Hcoh]. unfold opClearAuth. rewrite uget_nget.
+  destruct (nget id (s_users s)) as [u|] eqn:Eu; [|split; assumption].
+  destruct (invalidate_fold_ok (u_auth u) s HC) as [s1 [Hf [Hu1 [Hn1 [Hsub [Hnone HC1]]]]]].
+  rewrite Hf. cbn [fst]. rewrite uset_nset, Hu1. unfold with_users. split.
+  - split; cbn [s_users s_hcache].
+    + apply NoDup_nset. exact Hnd.
+    + destruct HC1 as [A B C]. split; assumption.
+    + intros h2 j Hg. pose proof (Hsub _ _ Hg) as Hold. destruct (Hcoh _ _ Hold) as [x [Hx Hr]].
+      destruct (N.eq_dec j id) as [E|E].
+      * subst j. rewrite Eu in Hx. inversion Hx; subst x. eexists. split; [cbn [s_users]; apply nget_nset_same|].
+        unfold recog0 in *. cbn [u_auth existsb orb]. unfold mask_match in *. cbn [u_masks].
+        apply orb_true_iff in Hr as [Hr|Hr]; [|exact Hr].
+        apply existsb_exists in Hr as [e [Hin He]]. apply seq_eqb_eq in He. subst h2.
+        rewrite (Hnone _ Hin) in Hg. discriminate.
+      * exists x. split; [cbn [s_users]; rewrite nget_nset_other by exact E; exact Hx|exact Hr].
+  - intros j x Hj. cbn [s_users s_next] in *. rewrite Hn1.
+    destruct (N.eq_dec j id) as [E|E]; [subst; exact (Hb _ _ Eu)|].
+    rewrite nget_nset_other in Hj by exact E. exact (Hb _ _ Hj).
+Qed.
+
+(* ---- histories ---- *)
+(* the domain: every lookup in the history is unambiguous when it happens
+   (at most one account recognises the hostmask) *)
+Definition op_ok (now : Z) (s : st) (o : op) : Prop :=
+  match o with
+  | OLookup h => (length (recognised_by 0 now s h) <= 1)%nat
+  | _ => True
+  end.
+
+Fixpoint run_ops (s : st) (ops : list (Z * op)) : st :=
+  match ops with
+  | [] => s
+  | (now, o) :: r => run_ops (fst (step 0 now s o)) r
+  end.
+
+Fixpoint hist_ok (s : st) (ops : list (Z * op)) : Prop :=
+  match ops with
+  | [] => True
+  | (now, o) :: r => op_ok now s o /\ hist_ok (fst (step 0 now s o)) r
+  end.
+
+Lemma step_preserves now s o :
+  Inv s -> ids_bounded s -> op_ok now s o ->
+  Inv (fst (step 0 now s o)) /\ ids_bounded (fst (step 0 now s o)).
+Proof.
+  intros HI Hb Hok. destruct o as [h|id u|id| |id h|id]; cbn [step].
+  - apply lookup_preserves; assumption.
+  - pose proof (set_preserves now s id u HI Hb) as H. destruct (setUser 0 now s id u). exact H.
+  - pose proof (del_preserves s id HI Hb) as H. destruct (delUser s id). exact H.
+  - pose proof (new_preserves s HI Hb) as H. destruct (newUser s). exact H.
+  - pose proof (auth_preserves now s id h HI Hb) as H. destruct (opAddAuth now s id h). exact H.
+  - pose proof (clear_preserves s id HI Hb) as H. destruct (opClearAuth s id). exact H.
+Qed.
+
+Theorem history_preserves s ops :
+  Inv s -> ids_bounded s -> hist_ok s ops -> Inv (run_ops s ops) /\ ids_bounded (run_ops s ops).
+Proof.
+  revert s. induction ops as [|[now o] ops IH]; intros s HI Hb Hok; [auto|].
+  cbn [run_ops]. cbn [hist_ok] in Hok. destruct Hok as [Ho Hr].
+  destruct (step_preserves now s o HI Hb Ho) as [HI' Hb']. apply IH; assumption.
+Qed.
+
+(* a cached answer is exactly what the cache-free recomputation gives *)
+Theorem cached_is_recomputed now s h id :
+  Inv s -> (length (recognised_by 0 now s h) <= 1)%nat ->
+  dict_get h (s_hcache s) = Some id ->
+  recognised_by 0 now s h = [id].
+Proof.
+  intros [Hnd _ Hcoh] Hlen Hg. destruct (Hcoh _ _ Hg) as [u [Hu Hr]].
+  assert (Hin : In id (recognised_by 0 now s h)).
+  { unfold recognised_by. apply in_map_iff. exists (id, u). split; [reflexivity|].
+    apply filter_In. split; [apply nget_In; exact Hu|]. cbn [snd]. rewrite recog_t0. exact Hr. }
+  destruct (recognised_by 0 now s h) as [|x [|y r]]; [destruct Hin| |cbn in Hlen; lia].
+  destruct Hin as [E|[]]. subst. reflexivity.
+Qed.
+
+(* Cache coherence over arbitrary histories on the domain (no login timeout,
+   unambiguous lookups): whatever a lookup answers after any history from the
+   empty database is what a cache-free recomputation gives. *)
+Theorem lookup_coherent_on_domain ops now h id :
+  hist_ok init ops ->
+  (length (recognised_by 0 now (run_ops init ops) h) <= 1)%nat ->
+  snd (getUserId 0 now (run_ops init ops) h) = Ok id ->
+  recognised_by 0 now (run_ops init ops) h = [id].
+Proof.
+  intros Hok Hlen Hres.
+  assert (Hb0 : ids_bounded init) by (intros j u Hj; discriminate).
+  destruct (history_preserves init ops Inv_init Hb0 Hok) as [HI _].
+  set (s := run_ops init ops) in *.
+  destruct (dict_get h (s_hcache s)) as [j|] eqn:Eg.
+  - unfold getUserId in Hres. rewrite Eg in Hres. cbn [snd] in Hres. inversion Hres; subst j.
+    eapply cached_is_recomputed; eassumption.
+  - destruct (getUserId 0 now s h) as [s' r] eqn:Eq. cbn [snd] in Hres. subst r.
+    eapply lookup_sound_miss; eassumption.
+Qed.
+
+(* ---- the pinned code violates coherence outside that domain ---- *)
+(* (a) login timeout: identify at t=1000, warm the cache, look up at t=1030 with timeout 10 *)
+Definition u1 : user := User [117;49] [[122;122;33;122;122;64;122;122]] [] false.
+Definition hAB : str := [97;98;33;120;64;121].
+Example expired_login_refuted :
+  let s0 := fst (newUser init) in
+  let s1 := fst (setUser 10 1000 s0 1 u1) in
+  let s2 := fst (opAddAuth 1000 s1 1 hAB) in
+  let s3 := fst (getUserId 10 1000 s2 hAB) in
+  snd (getUserId 10 1030 s3 hAB) = Ok 1 /\ recognised_by 10 1030 s3 hAB = [].
+Proof. vm_compute. auto. Qed.
+
+(* (b) overlapping globs: a*!*@* and *b!*@* are both accepted; ab!x@y is then ambiguous *)
+Example overlap_refuted :
+  let s0 := fst (newUser (fst (newUser init))) in
+  let s1 := fst (setUser 0 1000 s0 1 (User [117;49] [[97;42;33;42;64;42]] [] false)) in
+  let '(s2, r) := setUser 0 1000 s1 2 (User [117;50] [[42;98;33;42;64;42]] [] false) in
+  r = Ok tt /\ recognised_by 0 1000 s2 hAB = [1; 2].
+Proof. vm_compute. auto. Qed.
+
+(* (c) a login from a hostmask another account owns: the cached answer stays *)
+Example login_vs_mask_refuted :
+  let s0 := fst (newUser (fst (newUser init))) in
+  let s1 := fst (setUser 0 1000 s0 1 (User [117;49] [hAB] [] false)) in
+  let s2 := fst (setUser 0 1000 s1 2 (User [117;50] [[122;122;33;122;122;64;122;122]] [] false)) in
+  let s3 := fst (getUserId 0 1000 s2 hAB) in
+  let s4 := fst (opAddAuth 1000 s3 2 hAB) in
+  snd (getUserId 0 1000 s4 hAB) = Ok 1 /\ recognised_by 0 1000 s4 hAB = [1; 2].
+Proof. vm_compute. auto. Qed.
+
+(* non-vacuity of the domain: a history with registrations, a login, lookups *)
+Example hist_ok_example :
+  hist_ok init [(1000%Z, ONew); (1000%Z, OSet 1 u1); (1001%Z, OAuth 1 hAB); (1002%Z, OLookup hAB);
+                (1003%Z, OLookup [122;122;33;122;122;64;122;122]); (1004%Z, OClear 1); (1005%Z, OLookup hAB)].
+Proof. vm_compute. repeat split; lia. Qed.
